@@ -284,7 +284,10 @@ PROPS["C10"] = {
     "level": "model_checking", "engine": "kani+mir-smt", "mir": True,
     "technique": "bounded model checking (Kani/CBMC) of PropertyValue::write vs. the size the offset table is computed "
                  "from (through the msi_verif hook), the code-page property for all 26 code pages, and C18's timestamp laws",
-    "claim": "Per property value: the bytes PropertyValue::write emits equal the size PropertySet::write uses for the "
+    "claim": "Engine M, every value kind, code page and string (CodePage::encode uninterpreted, result length symbolic): the bytes "
+             "PropertyValue::write hands to the writer on success number exactly encoded_size_including_padding(), a multiple of 4, both "
+             "taking the length from the same encode call. Kani, concrete shapes: "
+             "per property value: the bytes PropertyValue::write emits equal the size PropertySet::write uses for the "
              "offset table, are a multiple of 4, and an LPSTR's length field equals its encoded bytes + 1 -- for all "
              "scalar values (symbolic) and for 11 concrete string shapes covering every residue of UTF-8 vs encoded "
              "length mod 4 under US-ASCII; set_codepage keeps property 1 and the cached code page in step for all 26 "
